@@ -17,6 +17,9 @@ pub struct D18 {
     pub cram: bool,
     /// 0 pass, 1 validation failure, 2 timeout, 3 skip, 4 execution error (shell cannot be started)
     pub outcome: u8,
+    /// how the timed-out command treats SIGTERM: 0 default, 1 ignores it, 2 traps it for clean-up
+    #[serde(default)]
+    pub term_style: u8,
 }
 
 #[derive(Clone, Debug, Serialize, Deserialize)]
@@ -34,10 +37,11 @@ pub struct Case18 {
 }
 
 fn case_strategy() -> BoxedStrategy<Case18> {
-    let doc = (0u8..4, proptest::bool::weighted(0.2), prop_oneof![4 => Just(0u8), 2 => Just(1u8), 2 => Just(2u8), 2 => Just(3u8), 1 => Just(4u8)])
-        .prop_map(|(slot, cram, outcome)| D18 {
+    let doc = (0u8..4, proptest::bool::weighted(0.2), prop_oneof![4 => Just(0u8), 2 => Just(1u8), 2 => Just(2u8), 2 => Just(3u8), 1 => Just(4u8)], 0u8..3)
+        .prop_map(|(slot, cram, outcome, term_style)| D18 {
             slot,
             cram,
+            term_style,
             // Cram has neither per-test timeouts nor a front-matter for the shell
             outcome: if cram && (outcome == 2 || outcome == 4) { 1 } else { outcome },
         });
@@ -105,7 +109,11 @@ fn doc_text(id: &str, d: &D18) -> (String, Vec<usize>) {
             }
             2 => {
                 lines.push("```scrut {timeout: 300ms}".into());
-                lines.push("$ sleep 1.5".into());
+                lines.push(match d.term_style {
+                    1 => "$ trap '' TERM; sleep 1.5".to_string(),
+                    2 => "$ trap 'echo cleaning up' TERM; sleep 1.5; echo done".to_string(),
+                    _ => "$ sleep 1.5".to_string(),
+                });
             }
             3 => {
                 lines.push("```scrut".into());
